@@ -63,6 +63,7 @@ def write_evidence(prop, profile, tier, seed, results, wall, violations, extra=N
     os.makedirs(EVIDENCE_DIR, exist_ok=True)
     stats, fired, probes = Counter(), Counter(), Counter()
     states = set()
+    cases = set()
     samples = []
     knobs = Counter()
     events = 0
@@ -73,6 +74,7 @@ def write_evidence(prop, profile, tier, seed, results, wall, violations, extra=N
         fired.update(r.get("fired") or {})
         probes.update(r.get("probes") or {})
         states.update(r.get("states") or [])
+        cases.update(r.get("cases") or [])
         events += r.get("events", 0)
         for k, v in (r.get("params") or {}).items():
             if isinstance(v, (str, int, bool)):
@@ -84,7 +86,8 @@ def write_evidence(prop, profile, tier, seed, results, wall, violations, extra=N
     evaluations = profile.evaluations(stats, runs)
     cov = {
         "evaluations": int(evaluations),
-        "distinct_nontrivial": len(states),
+        "distinct_nontrivial": len(cases),
+        "distinct_states": len(states),
         "rule": profile.rule,
         "samples": samples or [{"note": "no run completed"}],
         "runs": runs,
